@@ -105,7 +105,7 @@ Feed(lbl, evs) == /\ (IF Monitor THEN m' = MonSteps(S, m, evs) ELSE m' = m)
 EvStatus(pid, c, s, mk, nf, pr) ==
   [e |-> "status", pid |-> pid, sub |-> c.sub, njobs |-> Cardinality(J), nsub |-> c.nsub, ndone |-> c.ndone,
    complete |-> c.complete, canceled |-> c.canceled, cver |-> c.ver, cverf |-> c.ver, jver |-> s.ver, jverf |-> s.ver,
-   st |-> s.st, rem |-> [j \in J |-> SeqOf(s.rem[j])], ids |-> SortedIds(s.ids), bidx |-> s.bidx,
+   st |-> s.st, rem |-> [j \in J |-> SeqOf(s.rem[j])], ids |-> SortedIds(s.ids), idb |-> SortedIds(s.ids), bidx |-> s.bidx,
    marker |-> mk, rows |-> SeqOf(NamesOnDisk(nf, pr))]
 EvRows(nf, pr) ==
   [e |-> "rows", proc |-> pr, ok |-> TRUE,
@@ -147,7 +147,7 @@ Init ==
                   << EvProc(1, "submit-jobs", FALSE, -1),
                      [e |-> "status", pid |-> 1, sub |-> "login", njobs |-> Len(S.jobs), nsub |-> 0, ndone |-> 0,
                       complete |-> FALSE, canceled |-> FALSE, cver |-> 1, cverf |-> 1, jver |-> 1, jverf |-> 1,
-                      st |-> [j \in ToSet(S.jobs) |-> 0], rem |-> [j \in ToSet(S.jobs) |-> S.blk[j]], ids |-> <<>>,
+                      st |-> [j \in ToSet(S.jobs) |-> 0], rem |-> [j \in ToSet(S.jobs) |-> S.blk[j]], ids |-> <<>>, idb |-> <<>>,
                       bidx |-> 1, marker |-> FALSE, rows |-> <<>>],
                      EvPromote(1, "login", TRUE, "", "login", TRUE),
                      [e |-> "rows", proc |-> <<>>, node |-> <<>>, ok |-> TRUE] >>
